@@ -45,7 +45,7 @@ impl Monitor for C06 {
         if tier == Tier::Sanitizer {
             vec!["uplinks_decoded"]
         } else {
-            vec!["uplinks_decoded", "faults_injected", "fault_tx", "fault_rx_setup", "fault_rx", "session_expired_reported", "counter_crossed_16bit", "mac_command_steps", "adjacent_double_faults"]
+            vec!["uplinks_decoded", "faults_injected", "fault_tx", "fault_rx_setup", "fault_rx", "session_expired_reported", "counter_crossed_16bit", "mac_command_steps", "adjacent_double_faults", "port0_uplinks"]
         }
     }
 
@@ -227,7 +227,12 @@ fn run_history(front: Front, reg: regions::Reg, start: u32, steps: &[Step], faul
             }
         }
         let ev0 = dev.ev_len();
-        let resp = dev.transact(Action::Send { data: &payload, port: 7, confirmed }, &script);
+        // one uplink in seven is MAC-only (FPort 0, no payload): it spends a counter like any other
+        let mac_only = (i as u64 + seed / 3) % 7 == 3;
+        if mac_only {
+            col.event("port0_uplinks");
+        }
+        let resp = if mac_only { dev.transact(Action::Send { data: &[], port: 0, confirmed }, &script) } else { dev.transact(Action::Send { data: &payload, port: 7, confirmed }, &script) };
         // a downlink the device did not get to see (fault) does not advance the network's view
         for e in dev.evs_since(ev0) {
             match e {
@@ -292,7 +297,9 @@ fn run_history(front: Front, reg: regions::Reg, start: u32, steps: &[Step], faul
         col.event("uplinks_decoded");
         // the same full counter must also be the one the payload was encrypted with
         let want = [*step as u8, 0xC0, (*step * 7) as u8];
-        if u.plain != want {
+        // (a MAC-only uplink - FPort 0 or none - carries the pending answers, if anything)
+        let app_data = u.view.f_port.map(|p| p != 0).unwrap_or(false);
+        if app_data && u.plain != want {
             col.violation(
                 &format!("C06|payload-not-encrypted-under-the-mic-counter|{}|start={}", fname, start_class(start)),
                 "the MIC verifies under a full counter under which the FRMPayload does not decrypt to what was sent",
